@@ -2,17 +2,34 @@
 """Regenerates MANIFEST.json from the table below (one entry per property that has a check)."""
 import json, os
 ROOT = os.path.dirname(os.path.dirname(os.path.abspath(__file__)))
+NA = {}
 ENGINE = "coq-model+correspondence"
 TECH = "Coq theorems over a Gallina model + extracted-model/implementation correspondence"
 
-CLAIMED = {
- 'C07': dict(
-   text="Machine-checked Coq theorems (Props/C07.v) over a Gallina model of EarlyReserveRegion/MapRegion/IdentityMapRegion with explicit 64-bit wrap-around: for every history of requests of any 64-bit size every successful reservation is page aligned, large enough, below the temporary-mapping page and below all earlier ones; failure iff the unwrapped rounded size does not fit, reserving nothing; MapRegion/IdentityMapRegion issue exactly ceil(size/4096) consecutive (page,frame) mappings. The model's constants are regenerated from /repo on every run and the extracted model is run against the real functions on generated histories; an independent big-integer monitor produces the concrete replays.",
-   note="Trusted: Coq kernel, extraction (ExtrOcamlBasic), the Go harness/monitor and generator, constants dump. The algorithmic model is hand-written and tied by differential testing, not by translation. The mapFn seam stands for Map (C04). goruntime's callers are not exercised (package does not link under go test).",
-   ref="DESIGN.md section 5 (C07)"),
-}
+def load_claimed():
+    out = {}
+    for fn in sorted(os.listdir(os.path.join(ROOT, 'checks'))):
+        if fn.endswith('.json') and os.path.exists(os.path.join(ROOT, 'checks', fn[:-5] + '.py')):
+            out[fn[:-5]] = json.load(open(os.path.join(ROOT, 'checks', fn)))
+    return out
+
+
+def merge_known():
+    """known_findings/Cxx.json (one per property, edited by hand) -> known_findings.json (the file the checks read)"""
+    d = os.path.join(ROOT, 'known_findings')
+    allf = []
+    for fn in sorted(os.listdir(d)):
+        if fn.endswith('.json'):
+            allf += json.load(open(os.path.join(d, fn))).get('findings', [])
+    with open(os.path.join(ROOT, 'known_findings.json'), 'w') as f:
+        json.dump({"_comment": "Committed list of genuine defects of ProjectSerenity/firefly found by the checks (merged from known_findings/Cxx.json by lib/mkmanifest.py). status=known entries are reported as KNOWN-FINDING lines, matched by monitor signature; status=fixed entries suppress nothing. Never written at run time.",
+                   "findings": allf}, f, indent=1)
+        f.write('\n')
+
 
 def main():
+    CLAIMED = load_claimed()
+    merge_known()
     props = [json.loads(l) for l in open(os.path.join(ROOT, 'properties.jsonl'))]
     m = {
      "version": 1,
@@ -36,7 +53,7 @@ def main():
               "level_claimed": {"category": "proof", "text": c['text'], "design_ref": c['ref']},
               "level_note": c['note'], "technique": c.get('technique', TECH)})
         else:
-            m['not_applicable'].append({"property_id": i, "reason": "check not built yet (work in progress; design in DESIGN.md section 5)"})
+            m['not_applicable'].append({"property_id": i, "reason": NA.get(i, "check not built yet (work in progress; design in DESIGN.md section 5)")})
     with open(os.path.join(ROOT, 'MANIFEST.json'), 'w') as f:
         json.dump(m, f, indent=1)
         f.write('\n')
